@@ -359,6 +359,13 @@ func TestRace(t *testing.T) {
 	scenarios := []string{
 		"coincide/N=2", "coincide/N=2/at=1999ms", "coincide/N=2/at=2001ms", "coincide/N=1",
 		"ticker2", "tm3", "close/N=2/k=2", "uni/N=2/k=5/ka=2s,1s",
+		// retransmissions while acknowledgements come in (every 3rd / 4th
+		// packet of a direction is lost), adaptive timeouts
+		"bidi/N=3/k1=12/k2=12/adaptive/freeloss=3", "uni/N=2/k=16/adaptive/freeloss=4/ka=2s,1s",
+		"tmstress", "tmstress/static",
+	}
+	if only := os.Getenv("VERIF_RACE_ONLY"); only != "" {
+		scenarios = strings.Split(only, ";")
 	}
 	runs := 0
 	for _, sn := range scenarios {
